@@ -17,6 +17,8 @@ from ..paths import unversion
 
 
 def run(chk, ctx) -> None:
+    from .helpers import extremum_helpers
+    extremum_helpers(chk, ctx, 'C02.helpers')
     _eligible(chk, ctx)
     _winners(chk, ctx)
     _types(chk, ctx)
@@ -72,7 +74,15 @@ def _eligible(chk, ctx) -> None:
     chk.ob('C02.eligible', 'State.pots:level_adjusted', sorted(adj[roles2.get('contrib')]) == sorted(adj[roles2.get('pending')]), fi.loc,
            "a player's eligibility level is reduced by whatever is taken out of his contribution (an untrimmed ante is dead money, it buys no side-pot level)",
            got={k: [(o, v) for o, _, v, _ in x] for k, x in adj.items()})
-    chk.floor('C02.eligible', 4)
+    antes = ctx.m.assigns(fi.node, 'self.get_effective_ante(i)')
+    an = antes[0].targets[0].id if len(antes) == 1 and isinstance(antes[0].targets[0], ast.Name) else None
+    ok_a = an is not None and any(isinstance(n, ast.AugAssign) and isinstance(n.op, ast.Sub) and isinstance(n.target, ast.Subscript)
+                                  and isinstance(n.target.value, ast.Name) and n.target.value.id == roles2.get('pending')
+                                  and isinstance(n.value, ast.Name) and n.value.id == an for n in walk_no_nested(fi.node))
+    chk.ob('C02.eligible', 'State.pots:ante_amount', ok_a, fi.loc,
+           'what is taken out of the eligibility level for an untrimmed ante is the ante the player actually posted '
+           '(the effective ante: position-swapped heads-up, capped by the stack)')
+    chk.floor('C02.eligible', 5)
 
 
 def _conj(t):
@@ -191,6 +201,25 @@ def _types(chk, ctx) -> None:
            "(two pots with different contenders must be able to split differently)",
            got=got or 'the hand-type test does not mention pot.player_indices', want='is not None test on a hand of a player in pot.player_indices')
     chk.floor('C02.types_depend_on_pot', 1)
+    # ... and on the board the sub-pot is queued for (a low may qualify on one board only)
+    ok_b = False
+    got_b = ''
+    for p in ctx.paths(fi):
+        recs = [e for e in p.writes() if T.root_self_attr(e.term) == '_sub_pots' and e.op == 'call:append' and e.value[1]]
+        for e in recs:
+            rec = unversion(e.value[1][0])
+            if rec[0] != 'tuple' or len(rec[1]) != 4 or rec[1][2] == ('const', None):
+                continue
+            board = rec[1][2]
+            k = p.events.index(e)
+            tests = [unversion(x.term) for x in p.events[:k] if x.kind == 'assume' and unversion(x.term)[0] == 'isnot'
+                     and T.mentions(unversion(x.term), lambda s: isinstance(s, tuple) and len(s) == 3 and s[0] == 'attr' and s[2] == 'player_indices')]
+            if tests:
+                got_b = T.show(tests[-1])[:160]
+                ok_b = all(T.mentions(t, lambda s: s == board) for t in tests)
+    chk.ob('C02.types_depend_on_board', 'State._begin_chips_pushing', ok_b, fi.loc,
+           'whether a hand type takes part in the split is decided per board, on the hands of the very board the sub-pot is queued for',
+           got=got_b)
 
 
 def _feeds_divisor(fi, lname) -> bool:
